@@ -1,7 +1,7 @@
 (** C16 - Duplicate-packets mode.  Pinned statements only. *)
 From Tftp Require Import Base.Decimal Model.Config Proofs.ConfigP.
 From Tftp Require Import Base.Prelude Model.Types Model.Consts Model.Codec Model.Window Model.Worker Model.Spec
-  Proofs.CodecP Proofs.SpecP Proofs.WindowP Proofs.SendP Proofs.RecvP.
+  Proofs.CodecP Proofs.SpecP Proofs.WindowP Proofs.SendP Proofs.RecvP Model.Net Proofs.CosimP.
 Local Open Scope N_scope.
 
 (** [send_packet]: [rep = N + 1] copies back to back; only the result of the first copy
@@ -69,6 +69,22 @@ Example C16_ex_window_tx :
   map (fun s => s_pk s) (window_tx 2 65535 [[7]; [8]]) = [Data 65535 [7]; Data 65535 [7]; Data 0 [8]; Data 0 [8]].
 Proof. vm_compute. reflexivity. Qed.
 
+(** Duplicates are harmless end to end: in the closed system of a sender emitting every DATA
+    [s_rep] times and a receiver emitting every ACK [r_rep] times - any repeat counts - over
+    channels that may in addition lose, repeat and reorder datagrams at will, the receiver's file
+    is always a block prefix of the sender's, success of the receiver means the exact file, and
+    the sender never succeeds without the receiver (files up to 65535 blocks). *)
+Theorem C16_duplicates_never_corrupt : forall sc rc f_sr f_rs F,
+  wf_params (s_blk sc) (s_ws sc) -> r_blk rc = s_blk sc -> r_ws rc = s_ws sc -> s_check sc = false ->
+  r_fails rc = [] -> 1 <= r_rep rc -> forall fuel, nblk (s_blk sc) F <= 65535 ->
+  let p := pair_run sc rc f_sr f_rs fuel (pair_init sc rc f_sr F) in
+  (exists c, c <= nblk (s_blk sc) F /\
+     written_bytes (w_file (r_w (p_r p))) ++ concat (w_elems (r_w (p_r p))) = takeN (c * s_blk sc) F) /\
+  (r_phase (p_r p) = RDone OutOk -> written_bytes (w_file (r_w (p_r p))) = F) /\
+  (s_phase (p_s p) = SDone OutOk -> r_phase (p_r p) = RDone OutOk /\ written_bytes (w_file (r_w (p_r p))) = F).
+Proof. exact cosim_safe. Qed.
+
+Print Assumptions C16_duplicates_never_corrupt.
 Print Assumptions C16_first_copy_decides.
 Print Assumptions C16_data_repeated.
 Print Assumptions C16_ack_repeated.
